@@ -138,7 +138,10 @@ class Interp:
 
     def observe(self, label, v):
         """record an output of the code under test (compared between interpreter and native runs)"""
-        self.observations.append((label, v if not isinstance(v, Sym) else None))
+        if isinstance(v, Sym):
+            t = z3.simplify(v.t)
+            v = (t.as_long() & mask(v.n)) if (z3.is_bv_value(t) or z3.is_int_value(t)) else (1 if z3.is_true(t) else (0 if z3.is_false(t) else None))
+        self.observations.append((label, v))
 
     def reach(self, label):
         self.reached[label] = self.reached.get(label, 0) + 1
